@@ -2,16 +2,20 @@
 """Apply each behaviour-preserving refactoring patch under /verif/refactorings/<id>/r*.diff to /repo,
 run ALL checks (quick), report any alarm (exit != 0 / VIOLATION / UNDECIDED), undo."""
 import glob, os, subprocess, sys, shutil, re
-only = sys.argv[1:]
+args = sys.argv[1:]
+root, pat = '/verif/refactorings', 'r*.diff'
+if args and args[0] == '--features':
+    root, pat = '/verif/features', 'f*.diff'; args = args[1:]
+only = args
 assert subprocess.run('git -C /repo status --porcelain', shell=True, capture_output=True, text=True).stdout.strip() == '', '/repo not clean'
 os.makedirs('/tmp/sweep-verif', exist_ok=True); shutil.copy('/verif/known_findings.json', '/tmp/sweep-verif/known_findings.json')
 shutil.rmtree('/tmp/sweep-verif/baseline', ignore_errors=True); shutil.copytree('/verif/baseline', '/tmp/sweep-verif/baseline')
 shutil.rmtree('/tmp/sweep-verif/mutants', ignore_errors=True)
 bad = 0
-for d in sorted(glob.glob("/verif/refactorings/C*")):
+for d in sorted(glob.glob(root + "/C*")):
     pid = os.path.basename(d)
     if only and pid not in only: continue
-    for p in sorted(glob.glob(d + '/r*.diff')):
+    for p in sorted(glob.glob(d + '/' + pat)):
         if subprocess.run(f'git -C /repo apply {p}', shell=True, capture_output=True).returncode != 0:
             print(pid, os.path.basename(p), 'PATCH DOES NOT APPLY'); continue
         try:
